@@ -165,6 +165,13 @@ func (fg *FnGen) subRef(name string, base *Term) *Term {
 	t := App("fld:"+name, SInt, base)
 	if !fg.noDefs && !hasBound(base) {
 		fg.assume(Eq(App("fldinv:"+name, SInt, t), base))
+		// sub-objects of different fields are different objects (LastModified and LastChecked of one entry never alias)
+		id, ok := fg.g.sentinels["fldtag:"+name]
+		if !ok {
+			id = 2000000 + len(fg.g.sentinels)
+			fg.g.sentinels["fldtag:"+name] = id
+		}
+		fg.assume(Eq(App("fldtag", SInt, t), IntLit(int64(id))))
 	}
 	return t
 }
